@@ -11,4 +11,4 @@ case "$PATCH" in
   *.py) (cd "$D" && /venv/bin/python "$PATCH") ;;
   *) (cd "$D" && patch -s -p1 < "$PATCH") ;;
 esac
-VERIF_REPO_DIR="$D" "$@"
+VERIF_REPO_DIR="$D" VERIF_EVIDENCE_DIR="$D/evidence" "$@"
